@@ -510,10 +510,23 @@ func c20Converter(c *run.Ctx, idx uint64) {
 
 func c20Concat(c *run.Ctx, idx uint64) {
 	r := c.Rng(idx)
-	n := r.Intn(5)
-	ms := make([]generate.Aff3, n)
+	n := r.Pick(0, 1, 2, 2, 3, 4, 8)
+	ms := make([]generate.Aff3, n, n+r.Intn(3))
 	for i := range ms {
-		switch r.Intn(4) {
+		switch r.Intn(6) {
+		case 4:
+			ms[i] = generate.Scale() // no argument: the identity
+			if ms[i] != (generate.Aff3{1, 0, 0, 0, 1, 0}) {
+				c.Violate("concat/scale-without-arguments-not-identity", map[string]interface{}{"got": fmt.Sprint(ms[i])})
+				return
+			}
+		case 5:
+			a, b := float32(r.Uniform(-3, 3)), float32(r.Uniform(-3, 3))
+			ms[i] = generate.Scale(a, b, 7) // further arguments are ignored
+			if ms[i] != (generate.Aff3{a, 0, 0, 0, b, 0}) {
+				c.Violate("concat/scale-with-three-arguments", map[string]interface{}{"got": fmt.Sprint(ms[i]), "x": a, "y": b})
+				return
+			}
 		case 0:
 			ms[i] = generate.Translate(float32(r.Uniform(-50, 50)), float32(r.Uniform(-50, 50)))
 		case 1:
@@ -531,8 +544,15 @@ func c20Concat(c *run.Ctx, idx uint64) {
 	c.Eval(run.Hash64(uint64(n), uint64(math.Float32bits(x))<<32|uint64(math.Float32bits(y)), uint64(math.Float32bits(float32(idx)))), n >= 2)
 	var cat generate.Aff3
 	var gx, gy float32
+	keep := append([]generate.Aff3(nil), ms...)
 	if !c.Guard("Concat", nil, func() { cat = generate.Concat(ms...); gx, gy = generate.MulAff3(x, y, cat) }) {
 		return
+	}
+	for i := range ms {
+		if ms[i] != keep[i] {
+			c.Violate("concat/caller-slice-modified", map[string]interface{}{"index": i, "before": fmt.Sprint(keep), "after": fmt.Sprint(ms)})
+			return
+		}
 	}
 	// reference: apply one after the other in float64
 	fx, fy := float64(x), float64(y)
